@@ -257,7 +257,9 @@ def parent(args):
     # runs against another checkout (seeded changes, mutants) must not overwrite the evidence of /repo
     evdir = os.path.join(OUT, 'evidence-other-checkout') if os.environ.get('TV_REPO') else os.path.join(ROOT, 'evidence')
     os.makedirs(evdir, exist_ok=True)
-    budget = args.budget or (getattr(mod, 'QUICK_S', 40) if tier == 'quick'
+    # QUICK_S is the time the quick workload needs on an idle machine; the workload itself is capped by operation counts,
+    # so the wall-clock cap is set three times as high: a loaded machine makes the run slower, not inconclusive
+    budget = args.budget or (3 * getattr(mod, 'QUICK_S', 40) if tier == 'quick'
                              else getattr(mod, 'THOROUGH_S', 600))
     nshards = args.shards or getattr(mod, 'SHARDS', min(16, os.cpu_count() or 4))
     t0 = time.time()
